@@ -15,8 +15,8 @@ from ..procs import pmap
 from ..tlc import account, run_tlc, tla
 
 MODULE = 'vgen.migrate'
-TASKS = {'a': 'json', 'b': 'numpy', 'c': 'dir', 'p': 'pandas', 'g': 'generated', 'm': 'mem', 'f': 'figure', 'r': 'rep', 'v': 'voc', 'e': 'empty'}
-SLUG = {'a': 'a', 'b': 'grp:b', 'c': 'c', 'p': 'p', 'g': 'g', 'm': 'm', 'f': 'fig', 'r': 'rep', 'v': 'left::voc', 'e': 'empty'}
+TASKS = {'a': 'json', 'b': 'numpy', 'c': 'dir', 'p': 'pandas', 'g': 'generated', 'm': 'mem', 'f': 'figure', 'r': 'rep', 'v': 'voc', 'e': 'empty', 'l': 'listnpy', 'k': 'lnk'}
+SLUG = {'a': 'a', 'b': 'grp:b', 'c': 'c', 'p': 'p', 'g': 'g', 'm': 'm', 'f': 'fig', 'r': 'rep', 'v': 'left::voc', 'e': 'empty', 'l': 'l', 'k': 'lnk'}
 
 
 def module():
@@ -30,6 +30,8 @@ def module():
         dict(slug='p', cls_name='MpTask', kind='pandas', inputs=[dict(ref='a', how='name')], pulls=['a'], input_kinds={'a': 'json'}),
         dict(slug='g', cls_name='MgTask', kind='generated', inputs=[dict(ref='a', how='class')], pulls=['a'], input_kinds={'a': 'json'}),
         dict(slug='m', cls_name='MmTask', kind='mem', inputs=[dict(ref='a', how='class')], pulls=['a'], input_kinds={'a': 'json'}),
+        # a directory result that is not a DirData (list of arrays)
+        dict(slug='l', cls_name='MlTask', kind='listnpy', inputs=[dict(ref='a', how='class')], pulls=['a'], input_kinds={'a': 'json'}),
     ]
     mod = gen.make_module(specs, MODULE)
     import pylab
@@ -93,7 +95,33 @@ def module():
             gen.RUNLOG.append({'slug': 'empty'})
             return (x for x in [])
 
-    for c in (FigTask, ContTask, VocTask, RepTask, EmptyTask):
+    from taskchain.data import DirData
+
+    class LnkTask(Task):
+        """a directory result holding a RELATIVE symbolic link that points out of the directory (to the stored input)"""
+        class Meta:
+            name = 'lnk'
+            input_tasks = [mod.CLASSES['g']]      # (g is stored in every case: the link never dangles in the source)
+
+        def run(self, g) -> DirData:
+            gen.RUNLOG.append({'slug': 'lnk'})
+            d = self.get_data_object()
+            (d.dir / 'copy.txt').write_text(f'items={len(list(g))}')
+            target = self.input_tasks['g'].data_path
+            os.symlink(os.path.relpath(target, d.dir), d.dir / 'ref.jsonl')
+            return d
+
+    class FailDirTask(Task):
+        """a directory task that fails after writing: its partial output is set aside in the source (<config>_error)"""
+        class Meta:
+            name = 'faildir'
+
+        def run(self) -> DirData:
+            d = self.get_data_object()
+            (d.dir / 'page_0.html').write_text('partial')
+            raise RuntimeError('rendering failed')
+
+    for c in (FigTask, ContTask, VocTask, RepTask, EmptyTask, LnkTask, FailDirTask):
         c.__module__ = MODULE
         setattr(mod, c.__name__, c)
     return mod
@@ -127,8 +155,9 @@ def one(job):
         vf.write_text(json.dumps({'tasks': [f'{MODULE}.VocTask'], 'w': 9}))
         vf2.write_text(json.dumps({'tasks': [f'{MODULE}.VocTask'], 'w': 9}))
         # the two mounts hold the same computation, declared by one file (even cases) or by two files (odd cases)
-        doc = {'tasks': [f'{MODULE}.M{t}Task' for t in 'abcpgm'] + [f'{MODULE}.FigTask', f'{MODULE}.ContTask',
-                                                                    f'{MODULE}.RepTask', f'{MODULE}.EmptyTask'],
+        doc = {'tasks': [f'{MODULE}.M{t}Task' for t in 'abcpgml'] + [f'{MODULE}.FigTask', f'{MODULE}.ContTask',
+                                                                     f'{MODULE}.RepTask', f'{MODULE}.EmptyTask', f'{MODULE}.LnkTask',
+                                                                     f'{MODULE}.FailDirTask'],
                'x': 4, 'uses': [f'{vf} as left', f'{vf if idx % 2 == 0 else vf2} as right']}
         if idx % 3 == 2:
             # the pipeline is a PART (not the first one) of a multi-config file
@@ -148,12 +177,18 @@ def one(job):
                 return v
             if TASKS[t] == 'empty':
                 return list(v)
+            if TASKS[t] == 'lnk':     # the content, read THROUGH the link
+                return {'copy': (Path(v) / 'copy.txt').read_text(), 'ref': (Path(v) / 'ref.jsonl').read_text()}
             return gen.decode(TASKS[t], v)
         for t in TASKS:
             vals[t] = dec(t, old[SLUG[t]].value)
+        try:
+            _ = old['faildir'].value
+        except RuntimeError:
+            pass
         _ = old['cont'].value          # a resumable task interrupted after its first chunk: progress lives in <cfg>_tmp
         progress = sorted(str(p.relative_to(srcdir)) for p in (srcdir / 'cont').rglob('*') if p.is_file() and '_tmp' in str(p))
-        stored = set(case['src']) | {'g', 'p', 'e'}
+        stored = set(case['src']) | {'g', 'p', 'e', 'l', 'k'}
         for t in TASKS:
             if TASKS[t] != 'mem' and t not in stored:
                 old[SLUG[t]].force(delete_data=True)
@@ -190,13 +225,13 @@ def one(job):
         for t, kind in TASKS.items():
             if kind == 'mem':
                 continue
-            want = migrated and t in (set(case['src']) | {'g', 'p', 'e'})
+            want = migrated and t in (set(case['src']) | {'g', 'p', 'e', 'l', 'k'})
             has = bool(new[SLUG[t]].has_data)
             if has != want:
                 bad.append(('has-data', f'{label}: after migration the target has_data({SLUG[t]}) = {has}, in name mode it was '
-                                        f'{t in (set(case["src"]) | {"g", "p", "e"})}'))
+                                        f'{t in (set(case["src"]) | {"g", "p", "e", "l", "k"})}'))
         if migrated and not bad:
-            for t in sorted(set(case['src']) | {'g', 'p', 'e'}):
+            for t in sorted(set(case['src']) | {'g', 'p', 'e', 'l', 'k'}):
                 gen.RUNLOG.clear()
                 v = dec(t, new[SLUG[t]].value)
                 if v != vals[t]:
@@ -212,7 +247,7 @@ def one(job):
 
 
 def run(ctx):
-    pers = [t for t, k in TASKS.items() if k != 'mem' and t not in ('g', 'p', 'e')]   # (g, p always stored: keeps 2^n small)
+    pers = [t for t, k in TASKS.items() if k != 'mem' and t not in ('g', 'p', 'e', 'l', 'k')]   # (g, p always stored: keeps 2^n small)
     steps = 2 if ctx.quick() else 3
     mod = ('---- MODULE MCMigrate ----\nEXTENDS Migrate\n'
            f'c_Tasks == {tla(set(TASKS))}\nc_Pers == {tla(set(pers))}\n====\n')
